@@ -72,10 +72,20 @@ pub fn run_scenario(s: &Scenario) -> CaseResult {
             let n = (3 * *limit / plen + 8) as u32;
             let mut esi = 0u32;
             let mut sbn = 0u32;
+            // whole packets taken before the object is first abandoned (push refused, object gone or counted in error)
+            let mut accepted = 0usize;
+            let mut abandoned_after: Option<usize> = None;
             let mut push_n = |rx: &mut Rx, count: u32| {
                 for _ in 0..count {
                     let p = pkt(3, 7, vec![], sbn, esi, &body, false);
-                    rx.push(&p, now(esi as u64));
+                    let ok = rx.push(&p, now(esi as u64));
+                    if abandoned_after.is_none() {
+                        if !ok || rx.mr.nb_objects() == 0 || rx.mr.nb_objects_error() > 0 {
+                            abandoned_after = Some(accepted);
+                        } else {
+                            accepted += 1;
+                        }
+                    }
                     esi += 1;
                     if esi == 60000 {
                         esi = 0;
@@ -106,8 +116,35 @@ pub fn run_scenario(s: &Scenario) -> CaseResult {
             if rx.mr.nb_objects_error() > *track {
                 return Err(format!("nb_objects_error() = {} > max_objects_error = {}", rx.mr.nb_objects_error(), track));
             }
+            // independent of any heap measurement: the bytes of the packets buffered before the object is given up
+            // (whole packets, as they sit in the cache) stay within the limit, up to the packet that crosses it
+            match abandoned_after {
+                None => {
+                    return Err(format!(
+                        "packets buffered for an undecodable object: {} packets of {} bytes ({} bytes in all, payload {} bytes each) were pushed and the object was never abandoned; object_max_cache_size = {}",
+                        4 * n,
+                        plen,
+                        4 * n as usize * plen,
+                        payload,
+                        limit
+                    ))
+                }
+                Some(k) if k * plen > *limit + plen => {
+                    return Err(format!(
+                        "packets buffered for an undecodable object: {} packets of {} bytes = {} bytes (payload {} bytes each) were buffered before the object was abandoned; object_max_cache_size = {}",
+                        k,
+                        plen,
+                        k * plen,
+                        payload,
+                        limit
+                    ))
+                }
+                Some(_) => {}
+            }
             info.nt(true);
             info.label("cache limit reached");
+            info.label_if(*payload == 0, "header-only packets");
+            info.label_if(*payload > 0 && (*payload as usize) < plen - *payload as usize, "payload smaller than the header");
             drop(rx);
         }
         Scenario::Blocks { limit, e, b, track } => {
@@ -389,7 +426,7 @@ pub fn run_scenario(s: &Scenario) -> CaseResult {
 pub fn scenario_strategy() -> BoxedStrategy<Scenario> {
     let limit = prop_oneof![Just(4usize << 10), Just(16 << 10), Just(64 << 10), Just(256 << 10), (4usize << 10)..(300 << 10)];
     prop_oneof![
-        3 => (limit.clone(), prop_oneof![Just(64u16), Just(200), Just(1400), 32u16..1400], 0usize..9).prop_map(|(limit, payload, track)| Scenario::Cache { limit, payload, track }),
+        3 => (limit.clone(), prop_oneof![2 => Just(64u16), 2 => Just(200), 2 => Just(1400), 2 => 32u16..1400, 1 => Just(0u16), 2 => 0u16..32], 0usize..9).prop_map(|(limit, payload, track)| Scenario::Cache { limit, payload, track }),
         3 => (limit, prop_oneof![Just(16u16), Just(64), Just(256)], 1u32..9, 0usize..9).prop_map(|(limit, e, b, track)| Scenario::Blocks { limit, e, b, track }),
         2 => (0usize..9, 1u16..40, any::<bool>()).prop_map(|(track, objects, cleanup_each)| Scenario::Errors { track, objects, cleanup_each }),
         2 => (0u16..12, 0u16..12, 1u16..4, any::<bool>(), 2u64..8).prop_map(|(stalled, fdt_ids, sessions, session_timeout, timeout_ms)| Scenario::Cleanup { stalled, fdt_ids, sessions, session_timeout, timeout_ms }),
